@@ -25,7 +25,7 @@ OBLIGATIONS += [
         fp_restrict=["decode_buffer.function_pointer_call.1/lzstub"], **DICT),
 ]
 OBLIGATIONS += reuse("C03", r".")            # header decoders on all inputs
-OBLIGATIONS += reuse("C05", r"stream_|block_to|block_body_rules|index_hash_exact")   # stream_decode from arbitrary states, Block body, Index verification
+OBLIGATIONS += reuse("C05", r"stream_|block_to|block_body_rules|index_hash_exact_(1call|sliced)")   # stream_decode from arbitrary states, Block body, Index verification
 OBLIGATIONS += reuse("C16", r".")            # .lz / .lzma / auto decoders
 OBLIGATIONS += reuse("C06", r"vli_decode")
 OBLIGATIONS += reuse("C15", r"_roundtrip$|_reference$", tiers=("thorough",))   # BCJ/delta kernels: no out-of-buffer access
